@@ -23,12 +23,15 @@ TRUSTED = [
 
 ASSUMPTIONS = [
     "C07_validate_idempotent_partial assumes the validated tree is in the normal form (Implicit.normalb) and that the second "
-    "validation returns at all; C07_wd_modes_rfc6243_partial assumes consistent flags (WithDefaults.wd_wf_forest) and "
-    "LYD_PRINT_KEEPEMPTYCONT off; C07_dflt_flag_sound assumes sound flags on the input. The correspondence run evaluates these "
-    "executable hypotheses (Q / W fields of the model's answer) on EVERY tree libyang hands to or gets from a validation / "
-    "print of the generated histories and reports a tree that breaks one as a property failure (the four listed deviations "
-    "dflt-nested-case-leftover, dflt-leaflist-partial, vdiff-np-container, wd-leaflist-partial-default are such trees)",
-    "schemas: chc_okb / schema_okb (checked on every generated schema, field K); one module, no when / must / unique / "
+    "validation returns at all; C07_implicit_exact_partial / C07_validate_idempotent_fresh prove the normal form for freshly "
+    "parsed canonical input (Implicit.freshb: all nodes new and explicit, no empty NP container, no siblings in two cases of a "
+    "choice) - for histories it is only evaluated at run time; C07_wd_modes_rfc6243_partial assumes consistent flags "
+    "(WithDefaults.wd_wf_forest) and LYD_PRINT_KEEPEMPTYCONT off; C07_dflt_flag_sound assumes sound flags on the input; "
+    "C07_validate_canon assumes a canonical input. The correspondence run evaluates these executable hypotheses / conclusions "
+    "(Q / W fields of the model's answer) on EVERY tree libyang hands to or gets from a validation / print of the generated "
+    "histories and reports a tree that breaks one as a property failure (the listed deviations dflt-nested-case-leftover, "
+    "dflt-leaflist-partial, vdiff-np-container, wd-leaflist-partial-default are such trees)",
+    "schemas: chc_okb / schema_okb / sids_uniqb / keys_plainb (checked on every generated schema, field K); one module, no when / must / unique / "
     "leafref, no opaque nodes; LYD_VALIDATE_PRESENT only (an empty tree is not validated)",
 ]
 
@@ -43,7 +46,12 @@ MANIFEST = {
             "instance exists), then the same for the children of every inner node, finally lyd_validate_final_r (mandatory, "
             "min / max-elements, lyd_np_cont_dflt_set) with the sequence of lyd_val_diff_add calls as change list - and about "
             "WithDefaults.wd_print_forest (lyd_node_should_print, lyd_is_default, the default tag of xml_print_meta, the "
-            "printer's child loop) on the shared Tree.v model. Proved: a tree in the RFC 7950 normal form (an independent "
+            "printer's child loop) on the shared Tree.v model. Proved: for freshly parsed canonical input a successful "
+            "validation reaches the RFC 7950 normal form - the default-flagged nodes are exactly the defaults required for the "
+            "explicit nodes - and keeps the explicit content (C07_implicit_exact_partial), so validating it again changes "
+            "nothing and reports nothing (C07_validate_idempotent_fresh); validation and lyd_new_implicit_all keep the tree "
+            "canonical, every created node placed by Tree.insert_node (C07_validate_canon, C07_implicit_all_canon); a tree in "
+            "the RFC 7950 normal form (an independent "
             "executable spec: exactly the required default leaves / leaf-list values / NP containers per 7.6.1, 7.7.2, 7.5.1, "
             "7.9.3, nested cases level by level) is a fixpoint of validation with an EMPTY change list "
             "(C07_validate_idempotent_partial); validation and lyd_new_implicit_all keep the default flag sound - every "
@@ -61,12 +69,12 @@ MANIFEST = {
             "identical; the model also evaluates the theorem hypotheses and conclusions (normal form reached, change list "
             "replays to the tree after, flags consistent and sound, canonical input) on every one of these trees. The API oracle "
             "validate-idem checks the same laws through lyd_diff_apply_all.",
-    "note": "PARTIAL. Not proved: that validation REACHES the normal form (only checked at run time on every generated case; "
-            "false for the two listed deviations), that the second validation does not fail, exactness of the change list "
+    "note": "PARTIAL. Not proved: that validation of an EDITED tree reaches the normal form (proved for freshly parsed input "
+            "only; for histories checked at run time on every generated case; false for the two listed deviations), that the "
+            "second validation does not fail, exactness of the change list "
             "(checked at run time by replaying the model's change list; false for vdiff-np-container; libyang's own diff "
             "additionally fails with LY_EINVAL in finding vdiff-np-recreate and is wrong for duplicate-instance lists, "
-            "vdiff-dupinst), preservation of the canonical order (checked at run time: libyang's invariant checker in the "
-            "oracle, canonb on every input tree). Not modelled: when / must / unique / leafref, several modules (with data of "
+            "vdiff-dupinst). Not modelled: when / must / unique / leafref, several modules (with data of "
             "another module in front libyang inserts a new top-level default node before older siblings of its own module - seen "
             "once, outside Tree.v), LYD_VALIDATE_NO_STATE / NO_DEFAULTS / MULTI_ERROR, the state of the tree after a failed "
             "validation, LYD_PRINT_KEEPEMPTYCONT in the theorem (tied by the correspondence run only), JSON / LYB printers.",
